@@ -1,3 +1,5 @@
+pub mod c01;
+pub mod c02;
 pub mod c04;
 pub mod c08;
 pub mod c13;
@@ -8,6 +10,8 @@ use std::sync::Arc;
 
 pub fn lookup(id: &str) -> Option<Arc<dyn Prop>> {
     Some(match id {
+        "C01" => Arc::new(c01::C01),
+        "C02" => Arc::new(c02::C02),
         "C04" => Arc::new(c04::C04),
         "C08" => Arc::new(c08::C08),
         "C13" => Arc::new(c13::C13),
